@@ -236,6 +236,90 @@ def oracle(hist, _e=None):
 
 
 # @variables is a legacy rule outside the property's statement (and not re-parsed by default): left out
+# ---- containers: @media / @page child kinds
+
+CONT_TEXT = dict(TEXT)
+CONT_TEXT.update({'n': '@namespace p "u1";', 'g': '@top-left { content: "x" }'})
+
+
+def cont_obj(code):
+    cp = _setup()
+    if code == 'n':
+        return cp.css.CSSNamespaceRule(prefix='p', namespaceURI='u1')
+    if code == 'g':
+        return cp.css.MarginRule(margin='@top-left', style='content: "x"')
+    tmp = cp.css.CSSStyleSheet()
+    tmp._setFetcher(lambda url: None)
+    tmp.cssText = CONT_TEXT[{'c': 'c1'}.get(code, code)]
+    return tmp.cssRules[0]
+
+
+def cont_run(case):
+    which, hist = case
+    cp = _setup()
+    rule = cp.css.CSSMediaRule(mediaText='print') if which == 'm' else cp.css.CSSPageRule()
+    outs = []
+    for op in hist:
+        try:
+            if op[0] == 'i':
+                _, code, idx = op
+                r = rule.insertRule(cont_obj(code)) if idx is None else rule.insertRule(cont_obj(code), idx)
+                res = 'none' if r is None else 'ok%d' % r
+            else:
+                rule.deleteRule(op[1])
+                res = 'none'
+        except xml.dom.DOMException as e:
+            res = type(e).__name__
+        except Exception as e:
+            res = 'EXC:' + type(e).__name__
+        outs.append('%s;%s' % (res, ' '.join(KIND_BY_TYPE[r.type] for r in rule.cssRules)))
+    return outs
+
+
+def cont_line(case):
+    which, hist = case
+    return 'cont %s %s' % (which, ','.join(
+        ('i.%s.%s' % (o[1], 'n' if o[2] is None else (99 if o[2] < 0 else o[2]))) if o[0] == 'i' else 'd.%d' % o[1]
+        for o in hist))
+
+
+def cont_py(case):
+    return ' | '.join(cont_run(case))
+
+
+MEDIA_FORBIDS = set('cfing')
+PAGE_FORBIDS = set('cfinpm')
+
+
+def cont_oracle(case, _e=None):
+    which, _ = case
+    forbid = MEDIA_FORBIDS if which == 'm' else PAGE_FORBIDS
+    prev = ''
+    for n, out in enumerate(cont_run(case)):
+        res, kinds = out.split(';')
+        if res.startswith('EXC:'):
+            return 'container op %d raised %s (not a DOM exception)' % (n, res[4:])
+        if set(kinds.split()) & forbid:
+            return 'after op %d the @%s rule holds a forbidden child kind: %s' % (n, 'media' if which == 'm' else 'page', kinds)
+        if res.endswith('Err') and kinds != prev:
+            return 'container op %d was rejected (%s) but changed the child list' % (n, res)
+        prev = kinds
+    return ''
+
+
+def cont_cases(tier, seed):
+    rnd = random.Random(seed + 7)
+    codes = ['c', 'i', 'n', 's', 'm', 'p', 'f', 'u', 'x', 'g']
+    ops = [('i', c, idx) for c in codes for idx in (None, 0, 1, 2, -1)] + [('d', i) for i in (-2, -1, 0, 1, 2)]
+    cases = []
+    for which in 'mp':
+        for h in itertools.product(ops, repeat=2):
+            cases.append((which, h))
+        for _ in range(150 if tier == 'quick' else 3000):
+            cases.append((which, tuple(rnd.choice(ops) for _ in range(rnd.randint(3, 12)))))
+    return cases
+
+
 RULES = ['c1', 'i', 'n:1:1', 'n:0:2', 'p', 's', 'm', 'f', 'u', 'x']
 
 
@@ -308,8 +392,17 @@ def run(tier, seed):
         c, line, e, g = res['mismatches'][0]
         broken.append('correspondence op `sheet` diverges on %d histories; first %r\n impl=%s\n model=%s' % (
             res['n_mismatch'], c, e[-400:], g[-400:]))
+    ccases = cont_cases(tier, seed)
+    cres = corr.run('c07cont', ccases, cont_line, cont_py, cont_oracle, chunk=600)
+    for case, why in cres['oracle_fail'][:6]:
+        findings.add('container', repr(case), why)
+    if cres['n_mismatch']:
+        c, line, e, g = cres['mismatches'][0]
+        broken.append('correspondence op `cont` diverges on %d histories; first %r impl=%s model=%s' % (
+            cres['n_mismatch'], c, e[-300:], g[-300:]))
     coverage = {
-        'evaluations': sum(len(h) for h in cases),
+        'container_histories': cres['n'],
+        'evaluations': sum(len(h) for h in cases) + sum(len(c[1]) for c in ccases),
         'distinct_nontrivial': len(set(cases)),
         'rule': 'cases = operation histories from the empty sheet over 10 representative rules (text and object '
                 'forms) x insertRule at every index / add / deleteRule at every index (negative too) / encoding / '
@@ -321,8 +414,8 @@ def run(tier, seed):
         'exhaustive': True,
         'distribution': dist,
         'samples': [repr(cases[i]) for i in (1, len(cases) // 2, len(cases) - 1)],
-        'correspondence_mismatches': res['n_mismatch'],
-        'oracle_failures': res['n_oracle_fail'],
+        'correspondence_mismatches': res['n_mismatch'] + cres['n_mismatch'],
+        'oracle_failures': res['n_oracle_fail'] + cres['n_oracle_fail'],
     }
     assumptions = ['rule texts are abstracted to (kind, prefix, URI, encoding, used URIs)',
                    'text insertion of @namespace rules is exercised through objects (text form is parsed against '
